@@ -151,6 +151,7 @@ func discardedErrors(c *Ctx, r *Repo, rule string, p *packages.Package, allowed 
 				continue
 			}
 			fk := funcKey(p, fd)
+			chain := ownerChain(p, fd)
 			report := func(call *ast.CallExpr, how string) {
 				name := strings.ReplaceAll(calleeName(info, call), modPath+"/", "")
 				switch name {
@@ -164,6 +165,12 @@ func discardedErrors(c *Ctx, r *Repo, rule string, p *packages.Package, allowed 
 					name = types.ExprString(call.Fun)
 				}
 				key := fk + "|" + how + "|" + name
+				for _, owner := range chain {
+					if _, ok := allowed[owner+"|"+how+"|"+name]; ok {
+						key = owner + "|" + how + "|" + name
+						break
+					}
+				}
 				if why, ok := allowed[key]; ok {
 					c.OK(rule, key, r.Pos(call.Pos()), "accepted idiom: "+why)
 					return
